@@ -147,9 +147,9 @@ def char_boundary(ctx):
 
 
 PARSER_EXCEPTIONS = [
-    (r'AccessPolicy::(split_at_closing_parenthesis|find_matching_closing_parenthesis)$', 'overflow', r'^Sub$', 1,
-     'the parenthesis counter is decremented at most once below zero before the function returns'),
-    (r'AccessPolicy::(split_at_closing_parenthesis|find_matching_closing_parenthesis)$', 'overflow', r'^Add$', 2,
+    (r'AccessPolicy::(split_at_closing_parenthesis|find_matching_closing_parenthesis)$', 'overflow', r'^Sub:i32$', 1,
+     'the i32 parenthesis counter is decremented at most once below zero before the function returns'),
+    (r'AccessPolicy::(split_at_closing_parenthesis|find_matching_closing_parenthesis)$', 'overflow', r'^Add:i32$', 2,
      'i32 counter: needs 2^31 opening parentheses'),
     (r'AccessPolicy::to_dnf$', 'overflow', r'^Mul$', 1,
      'capacity hint: product of two in-memory vector lengths, each at most the number of conjunctions already built'),
